@@ -108,7 +108,7 @@ func Load(dir string, tags string) (*World, error) {
 		Fset: prog.Fset, Prog: prog, Repo: map[string]bool{}, RepoDir: dir,
 		Contracts: map[string]*Contract{}, Models: map[string]*ssa.Function{}, ModelPkg: map[string]string{}, Loops: map[string]*LoopSpec{},
 		MayPanic: map[string]string{}, Inline: map[string]bool{},
-		MaxSteps: 400000, MaxDepth: 24, DefaultUnroll: 3, GenSeconds: 90,
+		MaxSteps: 400000, MaxDepth: 24, DefaultUnroll: 3, GenSeconds: 240,
 		fnInfos: map[*ssa.Function]*fnInfo{}, fnIDs: map[*ssa.Function]uint64{}, byName: map[string]*ssa.Function{},
 	}
 	for i, sp := range spkgs {
